@@ -234,6 +234,10 @@ func c40GenActor(t *rapid.T, kind string, focus int) c40Actor {
 	for i := 0; i < n; i++ {
 		a.Steps = append(a.Steps, c40GenStep(t, kind, focus))
 	}
+	// publishers and readers start by attaching to the focus path: a write/detach/close before any attach is a wasted step
+	if first, ok := map[string]string{"fakepub": "attach", "fakerdr": "attach", "rtsppub": "publish", "rtsprdr": "read"}[kind]; ok {
+		a.Steps[0].Op, a.Steps[0].Path, a.Steps[0].Arg = first, c40Focus[focus][0], 0
+	}
 	return a
 }
 
